@@ -274,4 +274,53 @@ def outcome (cfg : Cfg) (c : Case) : Option (List (List Pos)) :=
     | none => none
     | some vals => outcomeLoop cfg vals c.dims c.subs
 
+/-! ## Modelica's meaning of a subscript (the specification side; not used by `outcome`) -/
+
+/-- `a, a+s, a+2s, …` up to `b` (`s > 0`); empty when `b < a`. -/
+def upRange (a : Int) (s : Nat) (b : Int) : List Int :=
+  (List.range ((b - a) / (s : Int) + 1).toNat).map (fun (j : Nat) => a + (j : Int) * (s : Int))
+
+/-- `a, a-s, a-2s, …` down to `b` (`s > 0`); empty when `a < b`. -/
+def downRange (a : Int) (s : Nat) (b : Int) : List Int :=
+  (List.range ((a - b) / (s : Int) + 1).toNat).map (fun (j : Nat) => a - (j : Int) * (s : Int))
+
+/-- Modelica `a : st : b`; `none` for the illegal step 0. -/
+def mRange (a st b : Int) : Option (List Int) :=
+  if st = 0 then none
+  else if 0 < st then some (upRange a st.toNat b)
+  else some (downRange a (-st).toNat b)
+
+/-- The 1-based indices a subscript denotes in a dimension of size `n` (`none`: ill-formed). -/
+def FSub.denote (n : Nat) : FSub → Option (List Int)
+  | .idx k => some [k.val]
+  | .range lo hi => some (upRange lo.val 1 hi.val)
+  | .range3 a b c => mRange a.val b.val c.val
+  | .all => some (upRange 1 1 n)
+
+/-- every index lies in `1..n` -/
+def InRange (n : Nat) (d : List Int) : Prop := ∀ i ∈ d, 1 ≤ i ∧ i ≤ (n : Int)
+
+/-- 0-based positions of 1-based indices -/
+def pos (d : List Int) : List Nat := d.map (fun i => (i - 1).toNat)
+
+/-- The values of a Modelica loop range. -/
+def LoopRange.denote : LoopRange → Option (List Int)
+  | .two a b => some (upRange a.val 1 b.val)
+  | .three a b c => mRange a.val b.val c.val
+
+/-- The subscripts on which the tree's checks suffice.  Integer subscripts and `:` always; a two-part slice
+    when slice bounds are checked, or else when its lower bound is at least 1 and its upper bound not negative
+    (the values CasADi does not count from the end); a three-part range only when it is read as
+    `start:step:stop`, with the same condition on its bounds. -/
+def Safe (cfg : Cfg) : FSub → Prop
+  | .idx _ => True
+  | .all => True
+  | .range lo hi => cfg.sliceCheck = true ∨ (1 ≤ lo.val ∧ 0 ≤ hi.val)
+  | .range3 a _ c => cfg.stepOrder = true ∧ (cfg.sliceCheck = true ∨ (1 ≤ a.val ∧ 0 ≤ c.val))
+
+/-- The loop-dependent subscripts `mul*i + off` on which the tree's checks suffice: all of them when the
+    loop check is present, else those that never go below 1. -/
+def LoopSafe (cfg : Cfg) (vals : List Int) (mul off : Int) : Prop :=
+  cfg.loopCheck = true ∨ ∀ v ∈ vals, 1 ≤ mul * v + off
+
 end PymocaVerif.Index
